@@ -338,6 +338,11 @@ fn decode_indep(t: &mut Tape, seeds: &[String]) -> IndepCase {
     for _ in 0..t.pick(3) {
         list.push(t.choose_ref(seeds).clone());
     }
+    // valid rules that look like something else (bracketed, '#'-led, header-ish), often first
+    if !hosts_format && t.chance(1, 3) {
+        let odd = t.choose(&["[banner-ad]", "[ads]/img", "#ads-frame", "[x].js$script", "[Adblock-ish]", "/[a]/", "!x"]).to_string();
+        if t.chance(1, 2) { list.insert(0, odd); } else { let i = t.pick(list.len() + 1); list.insert(i, odd); }
+    }
     let mut junk = vec![];
     for _ in 0..(1 + t.pick(5)) {
         let j = match t.pick(5) {
@@ -353,7 +358,7 @@ fn decode_indep(t: &mut Tape, seeds: &[String]) -> IndepCase {
             }
             _ => t.choose(&["example.com##", "##", "#@#.x", "||x.com^$unknownopt", "foo$removeparam", "@@foo$removeparam=x", "foo$generichide", "example.com##+js(", "a", "!", "[Adblock]"]).to_string(),
         };
-        junk.push((t.pick(list.len() + 1), j));
+        junk.push((if t.chance(1, 3) { 0 } else { t.pick(list.len() + 1) }, j));
     }
     IndepCase { list, junk, hosts_format, crlf: t.chance(1, 2), optimize: t.chance(1, 2) }
 }
